@@ -71,6 +71,14 @@ Theorem C01_lines_total : forall cfg ls ss,
 Proof. exact luamin_lines. Qed.
 Print Assumptions C01_lines_total.
 
+(* ... and for the __lua__ text of the cart `p8tool luamin` / `build --lua-minify` write (the chunks,
+   then the line break P8Formatter.to_file supplies unless the last chunk ends with one) *)
+Theorem C01_cart_text : forall cfg ls out,
+  Forall LexerChunk.ends_lf (removelast ls) -> Forall byte (concat ls) -> luamin_cart_text cfg ls = Ok out ->
+  holds_C01 (concat ls) out = true /\ holds_C19 (concat ls) out = true.
+Proof. exact luamin_cart. Qed.
+Print Assumptions C01_cart_text.
+
 (* the token count `stats` reports (Lua.get_token_count = token_count of Model/Lexer.v, with picotool's
    own weights) is the same for the source and for the written text: lexer model on src, writer
    model, lexer model again on the output (which is shown to be a byte string of the dialect) *)
